@@ -12,6 +12,8 @@ def sig_c11(rec):
 
 def sig_c03(rec):
     case = rec.get("case") or {}
+    if rec.get("family") == "flight":
+        return sig_flight(rec)
     hs = case.get("headers") or []
     return "maxage:" + "|".join(hs)[:200]
 
@@ -48,7 +50,69 @@ def sig_c09(rec):
     return "codec:record " + str(case.get("record_hex"))[:80]
 
 
+FLIGHT_COMPONENTS = ["mismatch", "monitor:C01", "monitor:C02+C10", "monitor:C03", "monitor:C04+C08", "monitor:C07", "monitor:C18", "monitor:C10"]
+
+
+def flight_family(quick, thorough, search):
+    return {"quick": quick, "thorough": thorough, "search": search, "runner": "test", "test": "TestFlight",
+            "components": FLIGHT_COMPONENTS}
+
+
+WAKEUP_FAMILY = {"quick": 8, "thorough": 8, "search": 8, "runner": "test", "test": "TestWakeup", "timeout_s": 40,
+                 "env": {"GODEBUG": "asyncpreemptoff=1", "GOMAXPROCS": "1"}, "components": ["mismatch", "monitor:C01"]}
+
+
+def sig_flight(rec):
+    case = rec.get("case") or {}
+    if rec.get("source", "").startswith("harness:hang"):
+        return "flight:hang " + json_short(case.get("ops_so_far"))
+    if "waiters" in case:
+        return "wakeup:waiter-returns-fetching" if rec.get("source", "").endswith("monitor") or rec.get("source") == "harness" else "wakeup:mismatch"
+    return "flight:" + json_short([f.get("op") for f in (case.get("frames") or [])[:12]])
+
+
+def json_short(x):
+    import json
+    return json.dumps(x, sort_keys=True)[:200]
+
+
+SYS_TRUST = [
+    "model coq/Model/Sys.v is hand-written from cache/http_cache.go (Get/get/HitForPass/Cacheable/Age/initFromStore/saveToStore), server/cache.go (middleware incl. deferred HitForPass) and the dispatcher lookup/purge; one key per model instance, eviction/purge/restart/store loss as environment labels",
+    "critical sections without blocking operations are atomic steps (sync.RWMutex gives mutual exclusion; the lock/field-access skeleton regenerated from the source is checked under C20)",
+    "tied to the code by the flight family (real middleware + dispatcher + fake store under testing/synctest, observation of every request at quiescence after every op) and the wakeup family (choreographed wake-up/expiry window under GOMAXPROCS=1)",
+    "Go runtime: channel rendezvous, deferred calls run on error return and panic, testing/synctest's fake clock and quiescence detection",
+]
+
+def sys_prop(assumptions, explanation, with_wakeup=False, quick=120):
+    fams = {"flight": flight_family(quick, 1500, 300)}
+    if with_wakeup:
+        fams["wakeup"] = WAKEUP_FAMILY
+    return {"families": fams, "signature": sig_flight, "trusted_base": SYS_TRUST,
+            "assumptions": assumptions, "explanation": explanation}
+
+
 PROPS = {
+    "C04": sys_prop(["whole-second clock granularity (the code reads time.Now().Unix()); the store is not forged (lost / truncated / invalid records are allowed)",
+                     "Age() is a second lock acquisition after Get(): the cross-epoch case is exhibited in the model and labelled partial"],
+                    "hit_is_installed_and_fresh via the provenance invariant; hits do not extend; refetch after expiry; Age value."),
+    "C07": sys_prop(["hit-for-pass period in whole seconds as converted by cache.convertConfigs"],
+                    "step-level theorems: marks, immediate pass without queueing, own answer, lapse; three simultaneous passes exhibited."),
+    "C08": sys_prop(["store Set/Get/Delete are atomic per key and Get returns the last successful Set or not-found (badger transactions: trusted); process start-up and badger recovery are runtime behaviour outside the model",
+                     "restarts are exercised in-process at quiescent points (fresh dispatcher on the same store)"],
+                    "provenance invariant with Crash anywhere in the label sequence; restored hit = original response, original creation time, within original expiry."),
+    "C10": sys_prop(["store calls return (possibly with an error): a call that never returns is a hang of the store client, not modelled"],
+                    "C01/C02 theorems hold for all store choices; no immortal/empty hit; bad record = miss; memory hits need no store."),
+    "C18": sys_prop(["a purge issued while a fetch is in flight does not cancel it: its result may be stored afterwards (stated caveat)"],
+                    "purge_effective, next request refetches, absent-key no-op, never strands (measure unchanged, progress), other keys untouched (dispatcher frame)."),
+    "C02": sys_prop(["every upstream exchange eventually ends (the proxy timeout turns silence into a 504): upstream steps are always-enabled environment steps"],
+                    "no_deadlock + strictly decreasing well-founded measure + final_clean over all label sequences."),
+    "C01": {
+        "families": {"flight": flight_family(120, 1500, 300), "wakeup": WAKEUP_FAMILY},
+        "signature": sig_flight,
+        "trusted_base": SYS_TRUST,
+        "assumptions": ["the key's entry is not evicted/purged during the fetch (the property's own proviso) for the per-key reading"],
+        "explanation": "single_flight and friends over all label sequences of the per-key small-step model.",
+    },
     "C09": {
         "families": {"codec": {"quick": 60, "thorough": 1500, "search": 300}},
         "signature": sig_c09,
@@ -97,7 +161,7 @@ PROPS = {
         "explanation": "get_best/get_none hold for every sorted permutation; per-run obligation: the weights regenerated from getPriority satisfy 0 < host < prefix.",
     },
     "C03": {
-        "families": {"maxage": {"quick": 3000, "thorough": 60000, "search": 20000}},
+        "families": {"maxage": {"quick": 3000, "thorough": 60000, "search": 20000}, "flight": flight_family(120, 1500, 300)},
         "signature": sig_c03,
         "trusted_base": [
             "model coq/Model/MaxAge.v is hand-written from server/proxy.go getCacheMaxAge + server/cache.go; the three regexes are modelled as string scanners for the literals pinned per run; Go regexp / strconv.Atoi / http.Header semantics are part of the model and tied by the maxage family",
